@@ -24,7 +24,7 @@ def check(run):
         if vlib.parse_violation(out):
             run.cov['drift'].append(dict(trace=os.path.basename(t), note='FindClosest tie-breaking differs from the model (larger neighbour)'))
             vlib.log('[DRIFT] FindClosest tie-breaking differs from NearestCoded')
-    n = recfam.count_lines(traces) // 3     # one Map and two Seq records per map
+    n = recfam.count_lines(traces) // 4     # one Map and three Seq records per map
     run.cov['traces_validated_against_impl'] = n
     return run.finish('model_checking',
                       'PwmMap.tla (definition) model-checked for all maps over a 6-key universe x 3 outputs x requests -3..258; records '
